@@ -387,7 +387,7 @@ fn enum_hist(t: Tier, shard: usize, nsh: usize, f: &mut dyn FnMut(Hist) -> bool)
 
 // ---- random histories
 
-fn coll_name() -> BoxedStrategy<AName> {
+pub fn coll_name() -> BoxedStrategy<AName> {
     vec(select(vec!["a", "b", "ab", "ba", "_my", "_mysrv", "foo", "bar", "foobar", "local"]), 1..=3)
         .prop_map(|v| AName(v.into_iter().map(|s| Bytes(s.as_bytes().to_vec())).collect()))
         .boxed()
